@@ -66,6 +66,7 @@ func main() {
 		"Client.WritePacketRTP/RTCP (recording), Client.WritePacketRTCP (playing), Client.WritePacketRTP (back channel while playing); " +
 		"packets = every plain marshalled size limit-12..limit+12 (SRTP: limit-32..limit+12) x RTP shapes {payload only, 1 CSRC + one-byte extension, 2 CSRC + RFC 3550 extension, padding 1, padding 17} " +
 		"and RTCP shapes {raw APP of every byte size, ApplicationDefined, ReceiverReport + profile extension, SDES, compound SR+SDES, compound RR+SDES} (structured RTCP: sizes that are multiples of 4). " +
+		"mixed readers: on an RTSPS server one library reader over RTP/SAVP/TCP and one raw reader over RTP/AVP/TCP play the same stream (both orders of joining); ServerStream.WritePacketRTP with every size limit-32..limit+12 x every RTP shape, 4 times each: refused means on no reader's wire, accepted means once on every reader's wire within the limit. " +
 		"non-trivial = every case (each one sits within 32 bytes of the limit); distinct = (configuration, entry point, shape, size)")
 	run.Assume("the memnet tap sees every UDP datagram and every byte written to the control connection, in the order the single writer goroutine of a session / client produced them; a small marker packet written through the same entry point after each case is the flush barrier (FIFO write queue)")
 	run.Assume("RTP header (sequence number) and the first 8 bytes of RTCP stay in clear under SRTP, so wire units are attributed to the write that produced them by sequence number / SSRC field")
@@ -154,6 +155,18 @@ func main() {
 				jobs = append(jobs, Job{Wire: &c})
 				descr = append(descr, fmt.Sprintf("wire %d/%s/%s", m, tr, sec))
 			}
+		}
+	}
+
+	// readers with different profiles on one RTSPS stream
+	for _, m := range maxes {
+		if m < 64 {
+			continue
+		}
+		for _, ord := range []string{"plain-first", "secure-first"} {
+			c := Cfg{Max: m, Transport: "tcp", Sec: "srtp", Mixed: ord}
+			jobs = append(jobs, Job{Wire: &c})
+			descr = append(descr, fmt.Sprintf("wire %d/mixed-readers/%s", m, ord))
 		}
 	}
 
